@@ -537,14 +537,13 @@ fn run_loadf(fields: &[&str], out: &mut impl Write) {
 }
 
 /// truth table of an update function BDD over (its own parameter variables, state variables)
-fn family_of(ctx: &SymbolicContext, f: &Bdd) -> std::collections::BTreeSet<String> {
+fn family_of(ctx: &SymbolicContext, f: &Bdd, states: &[BddVariable]) -> std::collections::BTreeSet<String> {
     let params: Vec<BddVariable> = ctx
         .parameter_variables()
         .iter()
         .filter(|p| f.support_set().contains(p))
         .cloned()
         .collect();
-    let states: Vec<BddVariable> = ctx.state_variables().clone();
     let total = f.num_vars();
     let mut fam = std::collections::BTreeSet::new();
     for pc in 0..(1usize << params.len()) {
@@ -597,16 +596,33 @@ fn run_conv(fields: &[&str], out: &mut impl Write) {
     let ctx2 = SymbolicContext::new(&bn2).unwrap();
     let names1: Vec<String> = bn.variables().map(|v| bn.get_variable_name(v).clone()).collect();
     let mut problems: Vec<String> = Vec::new();
-    // every original variable is a variable of the output
-    for nm in &names1 {
+    // every original variable is a variable of the output, except inputs that nothing reads
+    // (the bnet format has no way to mention them)
+    let mut absent: Vec<String> = Vec::new();
+    for v in bn.variables() {
+        let nm = bn.get_variable_name(v);
         if bn2.as_graph().find_variable(nm).is_none() {
-            problems.push(format!("variable {nm} missing in the output"));
+            let has_rule = !bn.regulators(v).is_empty() || bn.get_update_function(v).is_some();
+            let read_by_someone = bn.variables().any(|t| {
+                let f = if let Some(f) = bn.get_update_function(t) {
+                    ctx1.mk_fn_update_true(f)
+                } else {
+                    ctx1.mk_implicit_function_is_true(t, &bn.regulators(t))
+                };
+                f.support_set().contains(&ctx1.get_state_variable(v))
+            });
+            if has_rule || read_by_someone {
+                problems.push(format!("variable {nm} missing in the output"));
+            } else {
+                absent.push(nm.clone());
+            }
         }
     }
     if !problems.is_empty() {
         writeln!(out, "{id} ERR {}", clean(&problems.join("; "))).unwrap();
         return;
     }
+    let names1: Vec<String> = names1.into_iter().filter(|n| !absent.contains(n)).collect();
     let fresh: Vec<String> = bn2
         .variables()
         .map(|v| bn2.get_variable_name(v).clone())
@@ -614,6 +630,9 @@ fn run_conv(fields: &[&str], out: &mut impl Write) {
         .collect();
     for v in bn.variables() {
         let nm = bn.get_variable_name(v);
+        if absent.contains(nm) {
+            continue;
+        }
         let v2 = bn2.as_graph().find_variable(nm).unwrap();
         let has_rule = !bn.regulators(v).is_empty() || bn.get_update_function(v).is_some();
         let f2 = bn2.get_update_function(v2);
@@ -632,7 +651,11 @@ fn run_conv(fields: &[&str], out: &mut impl Write) {
         } else {
             ctx1.mk_implicit_function_is_true(v, &bn.regulators(v))
         };
-        let fam1 = family_of(&ctx1, &f1);
+        let present1: Vec<BddVariable> = names1
+            .iter()
+            .map(|n| ctx1.get_state_variable(bn.as_graph().find_variable(n).unwrap()))
+            .collect();
+        let fam1 = family_of(&ctx1, &f1, &present1);
         // family of the output function: all valuations of the fresh inputs, as tables over
         // the original variables (in the original order)
         let f2 = match f2 {
